@@ -537,7 +537,7 @@ impl<const N: usize> Drv<N> {
         }
         let mutating = !matches!(
             op.as_str(),
-            "get" | "nth_front" | "nth_back" | "front" | "back" | "index" | "as_slices" | "observe"
+            "get" | "nth_front" | "nth_back" | "front" | "back" | "index" | "as_slices" | "observe" | "expect_layout"
                 | "iter" | "range" | "to_vec" | "clone" | "eq" | "ne" | "partial_cmp" | "cmp"
                 | "hash" | "debug" | "eq_slice" | "lt" | "le" | "gt" | "ge"
         );
@@ -785,6 +785,10 @@ impl<const N: usize> Drv<N> {
             }
             "observe" => {
                 ev.rows = self.observe_rows(p);
+                ev.allocs = -1;
+            }
+            "expect_layout" => {
+                // no call: the observation that follows is compared with the layout the scenario aimed for
                 ev.allocs = -1;
             }
             "to_vec" => {
